@@ -159,7 +159,9 @@ PROPS["C09"] = dict(
              "prime-field deserialize accepts exactly integers < PRIME (canonical encodings)", "Boolean::deserialize accepts exactly 0/1; event type byte accepts exactly 0/1"],
     undecided=["every Serializable impl as such (field elements, bit arrays and padding-bit rejection, shares, reports, proof/hash arrays, seeds): "
                "GenericArray construction/conversion aborts CBMC and is outside Verus' subset",
-               "QueryConfig serde / URL encoding", "executor::Result for Vec<T>", "curve points", "BooleanArrayWriter/Reader field packing"],
+               "QueryConfig serde / URL encoding", "executor::Result for Vec<T>", "curve points", "BooleanArrayWriter/Reader field packing",
+               "the macro-generated tile drivers around the kernels (impl_transpose_16!/impl_transpose_8! instances such as [BA64; 64] -> [BA64; 64]): "
+               "the smallest real instance (4096 symbolic bits, 16 tiles) exhausted the memory cap / timed out at 1500 s (seed C09-3 is missed there)"],
     trusted_base=["<backend_store>::from_le_bytes((*buf).into()) yields the little-endian integer of the buffer (std + generic-array; dropped by the weave)"],
     assumptions=[],
     explanation="scoped to layout changes and the canonical-range decision",
